@@ -4,9 +4,11 @@ import (
 	"encoding/json"
 	"flag"
 	"fmt"
+	"golang.org/x/tools/go/ssa"
 	"os"
 	"os/exec"
 	"path/filepath"
+	"regexp"
 	"sort"
 	"strconv"
 	"strings"
@@ -143,7 +145,7 @@ func checkCmd(args []string) int {
 	var jobs []solveJob
 	execS := 0.0
 	for _, c := range s.contractsSorted() {
-		if !hasProp(c.allProps(), prop) {
+		if !hasProp(e.allPropsDeep(c), prop) {
 			continue
 		}
 		if c.Trusted {
@@ -153,37 +155,41 @@ func checkCmd(args []string) int {
 		if c.Inline && len(c.Ensures)+len(c.Requires) == 0 && len(c.Modifies) == 0 {
 			continue // loop specifications of an inlined function: checked in its callers
 		}
-		if fn := e.funcsByName[c.Key]; fn != nil && fn.Parent() != nil && c.Inline {
+		if c.Callback {
 			continue // a callback contract: checked where the callback is used (e.g. the walk model)
 		}
 		t1 := time.Now()
-		r := e.verifyFunction(c, s.init)
+		results := e.verifyFunctionCases(c, s.init)
 		execS += time.Since(t1).Seconds()
-		funcs = append(funcs, r.Fn)
-		if r.Err != "" {
-			outside = append(outside, r.Fn+": "+r.Err)
-		}
-		for k, n := range r.Notes {
-			notes[k] += n
-		}
-		for k, n := range r.Unmod {
-			unmod[k] += n
-		}
-		for _, m := range r.Models {
-			models[m] = true
-		}
-		var mine []*Obligation
-		for _, o := range r.Obls {
-			if o.Cover && strings.HasSuffix(o.ID, "cover:exit") && tier != "thorough" {
-				continue // reachability of the exit is only attempted in the thorough tier
+		for ri, r := range results {
+			if ri == 0 {
+				funcs = append(funcs, r.Fn)
 			}
-			if hasProp(o.Props, prop) {
-				mine = append(mine, o)
+			if r.Err != "" {
+				outside = append(outside, r.Fn+": "+r.Err)
 			}
+			for k, n := range r.Notes {
+				notes[k] += n
+			}
+			for k, n := range r.Unmod {
+				unmod[k] += n
+			}
+			for _, m := range r.Models {
+				models[m] = true
+			}
+			var mine []*Obligation
+			for _, o := range r.Obls {
+				if o.Cover && strings.HasSuffix(o.ID, "cover:exit") && tier != "thorough" {
+					continue // reachability of the exit is only attempted in the thorough tier
+				}
+				if hasProp(o.Props, prop) {
+					mine = append(mine, o)
+				}
+			}
+			staticDischarge(mine)
+			jobs = append(jobs, solveJob{r, mine})
+			all = append(all, mine...)
 		}
-		staticDischarge(mine)
-		jobs = append(jobs, solveJob{r, mine})
-		all = append(all, mine...)
 	}
 	// spec-level lemmas checked by an independent prover (Lean 4, core only)
 	for _, lm := range lemmaFiles[prop] {
@@ -307,8 +313,15 @@ func checkCmd(args []string) int {
 	// locked obligations that disappeared
 	if !*relock {
 		var missing []string
+		// a locked obligation counts as still generated when an obligation of the
+		// same group exists: return-path indices, conjunct indices, loop-exit
+		// variants and call ordinals shift under harmless edits
+		seenBase := map[string]bool{}
+		for id := range seen {
+			seenBase[baseID(id)] = true
+		}
 		for id := range lock[prop] {
-			if !seen[id] && !isOrdinalKind(id) {
+			if !seen[id] && !seenBase[baseID(id)] && !isOrdinalKind(id) {
 				missing = append(missing, id)
 			}
 		}
@@ -368,6 +381,17 @@ func checkCmd(args []string) int {
 		return 1
 	}
 	return 0
+}
+
+var baseIDRe = regexp.MustCompile(`@ret\d+|\.\d+( |$)| ~\d+|#\d+`)
+
+func baseID(id string) string {
+	return baseIDRe.ReplaceAllStringFunc(id, func(m string) string {
+		if strings.HasSuffix(m, " ") {
+			return " "
+		}
+		return ""
+	})
 }
 
 func isOrdinalKind(id string) bool {
@@ -586,4 +610,77 @@ func runLeanLemma(lm lemmaFile) *Obligation {
 		o.Model = out
 	}
 	return o
+}
+
+// allPropsDeep: the properties of a contract plus those of the clauses that
+// become obligations while it is verified: invariants, call-site assertions
+// and store assertions of the functions inlined into it (transitively), and
+// preconditions of the functions it calls by contract.
+func (e *Engine) allPropsDeep(c *Contract) []string {
+	set := map[string]bool{}
+	for _, p := range c.allProps() {
+		set[p] = true
+	}
+	seen := map[*ssa.Function]bool{}
+	var visit func(fn *ssa.Function, depth int)
+	visit = func(fn *ssa.Function, depth int) {
+		if fn == nil || seen[fn] || depth > 12 || fn.Blocks == nil {
+			return
+		}
+		seen[fn] = true
+		for _, b := range fn.Blocks {
+			for _, ins := range b.Instrs {
+				var callee *ssa.Function
+				switch x := ins.(type) {
+				case ssa.CallInstruction:
+					callee = x.Common().StaticCallee()
+					for _, a := range x.Common().Args {
+						if mc, ok := a.(*ssa.MakeClosure); ok {
+							visit(mc.Fn.(*ssa.Function), depth+1)
+						}
+					}
+				case *ssa.MakeClosure:
+					visit(x.Fn.(*ssa.Function), depth+1)
+				}
+				if callee == nil {
+					continue
+				}
+				ct := e.contracts[fnName(callee)]
+				if ct != nil {
+					for _, cl := range ct.Requires {
+						for _, p := range cl.Props {
+							set[p] = true
+						}
+					}
+					for _, cl := range ct.Expects {
+						for _, p := range cl.Props {
+							set[p] = true
+						}
+					}
+				}
+				if ct != nil && !ct.Inline {
+					continue
+				}
+				if ct != nil {
+					for _, l := range ct.Loops {
+						for _, cl := range l.Invs {
+							for _, p := range cl.Props {
+								set[p] = true
+							}
+						}
+					}
+					for _, cl := range ct.OnStore {
+						for _, p := range cl.Props {
+							set[p] = true
+						}
+					}
+				}
+				if e.isOurs(callee) || e.inlineFns[fnName(callee)] {
+					visit(callee, depth+1)
+				}
+			}
+		}
+	}
+	visit(e.funcsByName[c.Key], 0)
+	return sortedKeys(set)
 }
